@@ -601,7 +601,7 @@ class Extractor:
                 pos = lo + (m.end() if op == 'after' else m.start())
                 tl = e['lines']
                 block = len(tl) > 1 or (tl and tl[0].lstrip().startswith(('proof', 'invariant', 'assert', 'requires', 'ensures', 'decreases')))
-                edits.append((pos, 0, ghost(tl, block), True))
+                edits.append((pos, 0, ghost(tl, block), True, 0 if op == 'after' else 2))
                 spec.ghost_lines += len(tl)
             elif op == 'after-let':
                 rx = re.compile(r'\blet\s+(?:mut\s+)?' + flex(e['anchor']).pattern + r'\s*[:=]')
@@ -618,10 +618,10 @@ class Extractor:
                         elif text[j] == ';':
                             break
                     j += 1
-                edits.append((j + 1, 0, ghost(e['lines']), True))
+                edits.append((j + 1, 0, ghost(e['lines']), True, 0))
                 spec.ghost_lines += len(e['lines'])
             elif op == 'stmt-before-each':
-                ms = [m for m in flex(e['anchor']).finditer(seg) if mask[lo + m.start()]]
+                ms = [m for m in flex(e['anchor']).finditer(seg) if mask[lo + m.start()] and lo + m.start() > bopen]
                 if not ms:
                     raise LostAnchor('%s: fn %s: `%s` does not occur' % (rel, spec.name, e['anchor']))
                 starts = set()
@@ -640,7 +640,7 @@ class Extractor:
                         j -= 1
                     starts.add(j + 1)
                 for st in sorted(starts):
-                    edits.append((st, 0, ghost(e['lines']), True))
+                    edits.append((st, 0, ghost(e['lines']), True, 2))
                     spec.ghost_lines += len(e['lines'])
             elif op == 'body-start':
                 edits.append((bopen + 1, 0, ghost(e['lines']), True))
@@ -746,8 +746,8 @@ class Extractor:
                         rep = 'if let %s {' % m6.group(1)
                     else:
                         rep = 'if %s {} else {' % m6.group(1)
-                    edits.insert(0, (m6.start(), m6.end() - m6.start(), rep, False))
-                    edits.insert(0, (j, 0, '} ', False))
+                    edits.append((m6.start(), m6.end() - m6.start(), rep, False, 1))
+                    edits.append((j, 0, '} ', False, -1))
                     self.log.rw('R6', rel, line0 + text.count('\n', 0, m6.start()), norm(m6.group(0)), rep + ' <rest of block> }')
         if kind == 'twinfn' and spec.twin_as:
             m = re.search(r'\bfn\s+' + re.escape(spec.name) + r'\b', text)
@@ -778,10 +778,10 @@ class Extractor:
             edits = [e for e in edits if e[0] <= body_open]
             edits.append((body_open, close + 1 - body_open, '{ unimplemented!() }', False))
         # apply
-        edits.sort(key=lambda e: (e[0], 0 if e[1] == 0 else 1))
+        edits.sort(key=lambda e: (e[0], e[4] if len(e) > 4 else 1))
         # check overlaps
         res, cur = [], 0
-        for pos, dl, ins, ghost in edits:
+        for pos, dl, ins, ghost in [e[:4] for e in edits]:
             if pos < cur:
                 raise ValueError('%s: overlapping edits in fn %s' % (rel, spec.name))
             res.append(global_rules(text[cur:pos], rel, line0 + text.count('\n', 0, cur), self.log, keep_derive=False))
